@@ -61,3 +61,10 @@ Definition binary_raster (values : list xv) (data : list (list xv)) :=
 (* data-driven classifiers: _bin(agg, bins, arange(len bins)) *)
 Definition class_cell (bins : list xv) (v : xv) : option xv :=
   reclass_cell bins (map XFin (ziota 0 (length bins))) v.
+
+(* equal_interval's exact cuts, everything scaled by k so that they are integers:
+   cut_i = k*lo + (i+1)*(hi-lo), i = 0..k-1  (the code: arange(min+w, max+w, w), w=(max-min)/k,
+   overshoot cut, last cut := max).  Used for the band theorem; the float cuts of the
+   implementation are compared with these by the harness oracle. *)
+Definition ei_cuts (lo hi : Z) (k : nat) : list xv :=
+  map (fun i => XFin (Z.of_nat k * lo + (i + 1) * (hi - lo))) (ziota 0 k).
